@@ -70,6 +70,61 @@ T = {
 }
 
 
+# second round (same brief, different mechanisms asked for); delivered under /tmp/mut2_<id>
+T2 = {
+ 'C01_1': ('C01', ['C01'], '', 'join/tee-rejoin: the receiver has read only SOME topics of source B2\'s id N when source B1 delivers an id above N; B2\'s partial buffer is no longer reset and its leftover slot is not overwritten by the next id (topic absent there / publish lost)',
+           'C01 quick: mixed_ids / partial_set in 8 runs'),
+ 'C01_2': ('C01', ['C01', 'C03'], '', 'explicit list of >=2 topics on a synchronized source + an id newer than expected under which the source publishes none of the subscribed topics: the subscription TEMPLATE is trimmed for good',
+           'C01 quick: partial_set; C03 quick: extra_sets / sequence_mismatch'),
+ 'C02_1': ('C02', ['C02'], 'C02/C01 profiles gained consumers that use the MQ API directly with long / no receive time-out and a graceful-restart fault (clean shutdown with CLOSE, new incarnation on the same address)',
+           'a publisher shut down CLEANLY (CLOSE message) and restarted, with the CLOSE and the new publisher\'s first frame read inside one long recv() call of a consumer with a single synchronized source (Filter.loop_once\'s 100 ms polling hides it)',
+           'C02 quick: order_across_restart / duplicate_id_across_restart'),
+ 'C02_2': ('C02', ['C02'], 'test images now also come Fortran-ordered / strided / as views; send-side image oracle (wire vs emitted pixels); the fake zmq puts a buffer\'s MEMORY on the wire like libzmq',
+           'raw (non-jpg) output of an F-contiguous image (gray.T, np.asfortranarray): sent in memory order, reshaped in C order by the receiver - pixels permuted, nothing raises',
+           'C02 quick: image_altered_on_send'),
+ 'C03_1': ('C03', ['C03', 'C01'], '', 'explicit subscription with >=2 topics + publisher returning None for frame k and {} for frame k+1: the per-source template is aliased and emptied',
+           'C03 quick: extra_sets / sequence_mismatch in 28 runs; C01 quick: partial_set / missing_source'),
+ 'C03_2': ('C03', ['C03', 'C02'], '', 'explicit subscription + a publisher topic whose name starts with a subscribed name (SUBSCRIBE prefix without closing delimiter)',
+           'C03 quick: sequence_mismatch; C02 quick: unsubscribed_delivered'),
+ 'C04_1': ('C04', ['C04'], '', 'two live synchronized consumers sharing a client_id on one producer (replicas): they evict each other on every request; one stalls, the other keeps taking',
+           'C04 quick: unbounded_publish in 36 runs'),
+ 'C04_2': ('C04', ['C04'], '', 'consumer listing an ephemeral source before a synchronized one (eph flag leaks between requests) + a second consumer that keeps requesting',
+           'C04 quick: unbounded_publish in 124 runs'),
+ 'C05_1': ('C05', ['C04'], '', 'as C04-r2-2 (eph flag leaks to a later synchronized source): the producer registers the mixed receiver as ephemeral and runs ahead',
+           'C04 quick: unbounded_publish in 145 runs; C05 quick: nothing beyond the known findings'),
+ 'C05_2': ('C05', ['C05'], '', 'receiver with >=2 sources, one ephemeral and multi-topic; another source completes between the ephemeral publisher\'s per-topic messages',
+           'C05 quick: ephemeral_incomplete'),
+ 'C06_1': ('C06', ['C06'], '', 'diamond: the join is killed after A\'s frame reached it but before B\'s; after restart B\'s older id arrives first, then A\'s newer: the invalidated complete source is never polled again',
+           'C06 quick: no_progress in 172 runs'),
+ 'C06_2': ('C06', ['C06'], '', 'outputs_balance publisher, a worker (re)connecting while another worker\'s request is always waiting: its new requests are swallowed, no HELLO, never registered',
+           'C06 quick (balance shape): no_progress at the restarted worker'),
+ 'C07_1': ('C07', ['C07'], '', 'two balanced branches with a frame pending at the same time, the older examined first: lock skipped for single-topic frames, both merged (duplicate topic RuntimeError or silent mix)',
+           'C07 quick: rejoin_crashed in 831 runs'),
+ 'C07_2': ('C07', ['C07'], '', 'as C07-2 (prev_id only kept without state) on a forwarding, frame-dropping balanced rejoin',
+           'C07 quick: order (id 3 after id 4)'),
+ 'C08_1': ('C08', ['C08'], '', 'downstream ending before it ever requested a frame (exit()/exception in setup()): its exit announcement is ignored by the upstream',
+           'C08 quick: did_not_obey (announcement_read) in 61 runs'),
+ 'C08_2': ('C08', ['C08'], '', '>=3 filters in a line + non-default policies: a relayed error exit is re-announced as clean (exception already swallowed when the kind is read)',
+           'C08 quick: did_not_obey / ended_unexpectedly in 87 runs'),
+ 'C10_1': ('C10', ['C10'], '', 'as C10-2 (Frame(frame) inherits cached conversions, then format relabel)', 'C10 quick: stale_view (gray of relabelled frame)'),
+ 'C10_2': ('C10', ['C10'], '', 'from_jpg / from_blob WITHOUT dimensions: eager decode leaves the image writable while the jpg stays cached', 'C10 quick: wrong_writability / jpg_on_writable in 8615 histories'),
+ 'C13_1': ('C13', ['C13', 'C14'], '', 'reader position (head file or tell) in a file that retention then prunes: seek() parks the reader at the end of all logs, surviving records lost',
+           'C13 quick: lost_record in 3823 histories; C14 quick: skipped_record'),
+ 'C13_2': ('C13', ['C13'], '', 'total_size not a multiple of file_size + an appending write that crosses the budget without creating or filling a file: no prune until roll-over',
+           'C13 quick: budget in 14628 histories'),
+ 'C14_1': ('C14', ['C14'], '', 'as C14-1 (rename before the temp head file is flushed)', 'C14 quick: corrupt_head'),
+ 'C14_2': ('C14', ['C14'], '', 'head pointing into a file (offset > 0) that was pruned while the reader was down, newer files exist: stale offset applied to the oldest surviving file',
+           'C14 quick: skipped_record / torn in 2715 histories'),
+ 'C15_1': ('C15', ['C15'], '', 'the same nested containers reaching the deep mask a second time (config log line, then lineage START facets): process-wide "seen" set returns them unmasked',
+           'C15 quick: leak_lineage in 2500 runs'),
+ 'C15_2': ('C15', ['C15'], 'log capture now includes the exception text a handler appends for logger.exception', 'error path whose exception text quotes the URI, logged with logger.exception: the formatter appends the unmasked traceback line',
+           'C15 quick: leak_log (traceback text)'),
+ 'C18_1': ('C18', ['C18'], '', 'as C18-1 (terminal emission moved out of the stop_evt guard in Filter.exit())', 'C18 quick: wrong_terminal in 127 runs'),
+ 'C18_2': ('C18', ['C18'], 'lineage backend now has a drawn emit latency (0-700 ms)', 'two cooperating edits: unlocked terminated-check in the heartbeat loop + flag set after the emit; run ends via fini() within the backend latency before a heartbeat is due',
+           'C18 quick: event_after_terminal in 53 runs'),
+}
+
+
 def main():
     tests = {}
     if len(sys.argv) > 1 and os.path.exists(sys.argv[1]):
@@ -89,6 +144,27 @@ def main():
         meta = {'id': sid, 'breaks_property': prop, 'needs_to_manifest': needs,
                 'what_was_run': {'demo': 'demo.py exits 1 with patch.diff applied and 0 without (own confirmation in a scratch worktree)',
                                  'existing_tests_with_patch': tests.get(mid, 'see notes.md (sub-agent run); own confirmation pending'),
+                                 'checks': reported},
+                'caught_by_checks': caught, 'check_strengthened': strengthened or None}
+        json.dump(meta, open(os.path.join(dst, 'meta.json'), 'w'), indent=1)
+        rows.append((sid, prop, ', '.join(caught), strengthened or '-', reported))
+    tests2 = {}
+    if len(sys.argv) > 2 and os.path.exists(sys.argv[2]):
+        for line in open(sys.argv[2]):
+            m = re.match(r'(C\d\d_\d) (.*)', line.strip())
+            if m:
+                tests2[m.group(1)] = m.group(2)
+    for mid, (prop, caught, strengthened, needs, reported) in sorted(T2.items()):
+        src = f'/tmp/mut2_{mid}'
+        sid = f'{prop}-r2-{mid[-1]}' if mid.startswith(prop) else f'{mid[:3]}-r2-{mid[-1]}'
+        dst = os.path.join(HERE, 'seeded', sid)
+        os.makedirs(dst, exist_ok=True)
+        for f in ('patch.diff', 'demo.py', 'notes.md'):
+            if os.path.exists(os.path.join(src, f)):
+                shutil.copy(os.path.join(src, f), os.path.join(dst, f))
+        meta = {'id': sid, 'breaks_property': prop, 'needs_to_manifest': needs,
+                'what_was_run': {'demo': 'demo.py exits 1 with patch.diff applied and 0 without (own confirmation in a scratch worktree)',
+                                 'existing_tests_with_patch': tests2.get(mid, 'see notes.md (sub-agent run); own confirmation pending'),
                                  'checks': reported},
                 'caught_by_checks': caught, 'check_strengthened': strengthened or None}
         json.dump(meta, open(os.path.join(dst, 'meta.json'), 'w'), indent=1)
